@@ -148,6 +148,7 @@ func (t *Transcoder) registerRules(rules []*annotations.HttpRule) error {
 		if selector == "" {
 			return errors.New("rule missing selector")
 		}
+		var isWildcard bool
 		if i := strings.Index(selector, "*"); i >= 0 {
 			if i != len(selector)-1 {
 				return fmt.Errorf("wildcard selector %q must be at the end", rule.GetSelector())
@@ -156,10 +157,15 @@ func (t *Transcoder) registerRules(rules []*annotations.HttpRule) error {
 			if len(selector) > 0 && !strings.HasSuffix(selector, ".") {
 				return fmt.Errorf("wildcard selector %q must be whole component", rule.GetSelector())
 			}
+			isWildcard = true
 		}
 		for _, methodConf := range t.methods {
 			methodName := string(methodConf.descriptor.FullName())
-			if !strings.HasPrefix(methodName, selector) {
+			if isWildcard && !strings.HasPrefix(methodName, selector) {
+				continue
+			}
+			if !isWildcard && methodName != selector {
+				// without a wildcard a selector names exactly one method
 				continue
 			}
 			methodRules[methodConf] = append(methodRules[methodConf], rule)
